@@ -359,3 +359,155 @@ Proof.
   intros Hok Ca Cb. unfold uchecked_div_rem_euclid. rewrite (dk_g4 p (div_ok_inv p Hok)), is_zero_val by auto.
   apply guarded_spec. apply udivrem_refines; auto.
 Qed.
+
+(** * scalar forms *)
+Lemma of_u64_canon s : 0 <= s < B -> canon (of_u64 s) /\ val (of_u64 s) = s.
+Proof. intros H. rewrite of_u64_enc by auto. split; [apply enc_canon|apply enc_val; lia]. Qed.
+Lemma of_u128_canon s : 0 <= s < B * B -> canon (of_u128 s) /\ val (of_u128 s) = s.
+Proof. intros H. rewrite of_u128_enc by auto. split; [apply enc_canon|apply enc_val; lia]. Qed.
+
+Theorem udiv_u32_spec p a s : canon a -> 0 <= s < B ->
+  udiv_u32 p a s = omap enc (spec_udiv (val a) s).
+Proof.
+  intros Ca Hs. unfold udiv_u32, spec_udiv, nz, omap.
+  destruct (Z.eqb_spec s 0) as [->|Hn]; [reflexivity|].
+  rewrite div_rem_digit_spec by (try apply Ca; lia). reflexivity.
+Qed.
+Theorem urem_u32_spec p a s : canon a -> 0 <= s < B ->
+  urem_u32 p a s = omap enc (spec_urem (val a) s).
+Proof.
+  intros Ca Hs. unfold urem_u32, spec_urem, nz, omap.
+  destruct (Z.eqb_spec s 0) as [->|Hn]; [reflexivity|].
+  rewrite rem_digit_spec by (try apply Ca; lia). cbn [bind].
+  rewrite of_u64_enc; [reflexivity|]. pose proof (Z.mod_pos_bound (val a) s ltac:(lia)). lia.
+Qed.
+Theorem udiv_u64_spec p a s : div_ok p = true -> canon a -> 0 <= s < B ->
+  udiv_u64 p a s = omap enc (spec_udiv (val a) s).
+Proof.
+  intros Hok Ca Hs. destruct (of_u64_canon s Hs) as [C V]. unfold udiv_u64.
+  rewrite udivrem_val_spec, V by auto. unfold spec_udiv, nz, omap. destruct (s =? 0); reflexivity.
+Qed.
+Theorem urem_u64_spec p a s : div_ok p = true -> canon a -> 0 <= s < B ->
+  urem_u64 p a s = omap enc (spec_urem (val a) s).
+Proof.
+  intros Hok Ca Hs. destruct (of_u64_canon s Hs) as [C V]. unfold urem_u64.
+  rewrite udivrem_val_spec, V by auto. unfold spec_urem, nz, omap. destruct (s =? 0); reflexivity.
+Qed.
+Theorem udiv_u128_spec p a s : div_ok p = true -> canon a -> 0 <= s < B * B ->
+  udiv_u128 p a s = omap enc (spec_udiv (val a) s).
+Proof.
+  intros Hok Ca Hs. destruct (of_u128_canon s Hs) as [C V]. unfold udiv_u128.
+  rewrite udivrem_val_spec, V by auto. unfold spec_udiv, nz, omap. destruct (s =? 0); reflexivity.
+Qed.
+Theorem urem_u128_spec p a s : div_ok p = true -> canon a -> 0 <= s < B * B ->
+  urem_u128 p a s = omap enc (spec_urem (val a) s).
+Proof.
+  intros Hok Ca Hs. destruct (of_u128_canon s Hs) as [C V]. unfold urem_u128.
+  rewrite udivrem_val_spec, V by auto. unfold spec_urem, nz, omap. destruct (s =? 0); reflexivity.
+Qed.
+
+Lemma canon_two_lower d e l : canon (d :: e :: l) -> B <= val (d :: e :: l).
+Proof.
+  intros C. pose proof (canon_lower _ C ltac:(discriminate)) as L. cbn [length] in L.
+  pose proof B_gt1.
+  assert (B ^ 1 <= B ^ (Z.of_nat (S (S (length l))) - 1)) by (apply Z.pow_le_mono_r; lia).
+  rewrite Z.pow_1_r in H0. lia.
+Qed.
+Lemma canon_three_lower d e f l : canon (d :: e :: f :: l) -> B * B <= val (d :: e :: f :: l).
+Proof.
+  intros C. pose proof (canon_lower _ C ltac:(discriminate)) as L. cbn [length] in L.
+  pose proof B_gt1.
+  assert (B ^ 2 <= B ^ (Z.of_nat (S (S (S (length l)))) - 1)) by (apply Z.pow_le_mono_r; lia).
+  replace (B ^ 2) with (B * B) in H0 by ring. lia.
+Qed.
+Lemma canon_head_digit d l : canon (d :: l) -> 0 <= d < B.
+Proof. intros C. pose proof (proj1 C) as W. apply wf_cons in W as [H _]. exact H. Qed.
+
+Theorem digit_div_u_spec s b : canon b -> 0 <= s < B ->
+  digit_div_u s b = omap enc (spec_scalar_div s (val b)).
+Proof.
+  intros Cb Hs. unfold digit_div_u, spec_scalar_div, nz, omap, prim_div.
+  destruct b as [|d [|e l]].
+  - reflexivity.
+  - rewrite val_single. pose proof (canon_val_pos _ Cb ltac:(discriminate)) as Hp. rewrite val_single in Hp.
+    replace (d =? 0) with false by (symmetry; apply Z.eqb_neq; lia). cbn [bind].
+    rewrite of_u64_enc; [reflexivity|].
+    split; [apply Z.div_pos; lia|]. apply Z.div_lt_upper_bound; nia.
+  - pose proof (canon_two_lower d e l Cb).
+    replace (val (d :: e :: l) =? 0) with false by (symmetry; apply Z.eqb_neq; lia). cbn [bind].
+    rewrite Z.div_small by lia. reflexivity.
+Qed.
+
+Theorem u128_div_u_spec s b : canon b -> 0 <= s < B * B ->
+  u128_div_u s b = omap enc (spec_scalar_div s (val b)).
+Proof.
+  intros Cb Hs. pose proof B_gt1 as HB. unfold u128_div_u, spec_scalar_div, nz, omap, prim_div.
+  destruct b as [|d [|e [|f l]]].
+  - reflexivity.
+  - rewrite val_single. pose proof (canon_val_pos _ Cb ltac:(discriminate)) as Hp. rewrite val_single in Hp.
+    replace (d =? 0) with false by (symmetry; apply Z.eqb_neq; lia). cbn [bind].
+    rewrite of_u128_enc; [reflexivity|].
+    split; [apply Z.div_pos; lia|]. apply Z.div_lt_upper_bound; nia.
+  - pose proof (canon_two_lower d e [] Cb) as H2. rewrite val_two in *.
+    replace (d + B * e =? 0) with false by (symmetry; apply Z.eqb_neq; lia). cbn [bind].
+    rewrite of_u128_enc; [reflexivity|].
+    split; [apply Z.div_pos; lia|]. apply Z.div_lt_upper_bound; nia.
+  - pose proof (canon_three_lower d e f l Cb).
+    replace (val (d :: e :: f :: l) =? 0) with false by (symmetry; apply Z.eqb_neq; lia). cbn [bind].
+    rewrite Z.div_small by lia. reflexivity.
+Qed.
+
+Lemma scalar_rem_spec conv s b (lim : Z) : canon b -> 0 <= s < lim ->
+  (forall v, conv b = Some v -> val b = v) -> (conv b = None -> lim <= val b) ->
+  scalar_rem_u conv s b = nz (val b) (s mod val b).
+Proof.
+  intros Cb Hs Hsome Hnone. unfold scalar_rem_u, nz, prim_rem.
+  destruct (conv b) as [v|] eqn:E.
+  - rewrite (Hsome v eq_refl). reflexivity.
+  - specialize (Hnone eq_refl). replace (val b =? 0) with false by (symmetry; apply Z.eqb_neq; lia).
+    rewrite Z.mod_small by lia. reflexivity.
+Qed.
+
+Theorem u32_rem_u_spec s b : canon b -> 0 <= s < 2 ^ 32 ->
+  u32_rem_u s b = omap enc (spec_scalar_rem s (val b)).
+Proof.
+  intros Cb Hs. pose proof B_gt1 as HB. unfold u32_rem_u, spec_scalar_rem.
+  assert (H32 : 2 ^ 32 < B) by (rewrite B_val; reflexivity).
+  rewrite (scalar_rem_spec to_u32 s b (2 ^ 32)); auto.
+  - unfold nz, omap. destruct (Z.eqb_spec (val b) 0); [reflexivity|]. cbn [bind].
+    pose proof (val_nonneg b (proj1 Cb)). pose proof (Z.mod_pos_bound s (val b) ltac:(lia)).
+    assert (s mod val b <= s) by (apply Z.mod_le; lia).
+    rewrite of_u64_enc by lia. reflexivity.
+  - intros v E. apply (to_u32_some b v Cb E).
+  - unfold to_u32, to_u64. destruct b as [|d [|e l]]; try discriminate.
+    + rewrite val_single. destruct (Z.ltb_spec d (2 ^ 32)); [discriminate|lia].
+    + intros _. pose proof (canon_two_lower d e l Cb). lia.
+Qed.
+
+Theorem u64_rem_u_spec s b : canon b -> 0 <= s < B ->
+  u64_rem_u s b = omap enc (spec_scalar_rem s (val b)).
+Proof.
+  intros Cb Hs. pose proof B_gt1 as HB. unfold u64_rem_u, spec_scalar_rem.
+  rewrite (scalar_rem_spec to_u64 s b B); auto.
+  - unfold nz, omap. destruct (Z.eqb_spec (val b) 0); [reflexivity|]. cbn [bind].
+    pose proof (val_nonneg b (proj1 Cb)). pose proof (Z.mod_pos_bound s (val b) ltac:(lia)).
+    assert (s mod val b <= s) by (apply Z.mod_le; lia).
+    rewrite of_u64_enc by lia. reflexivity.
+  - unfold to_u64. destruct b as [|d [|e l]]; try discriminate; intros v E; inversion E; cbn; lia.
+  - unfold to_u64. destruct b as [|d [|e l]]; try discriminate.
+    intros _. apply (canon_two_lower d e l Cb).
+Qed.
+
+Theorem u128_rem_u_spec s b : canon b -> 0 <= s < B * B ->
+  u128_rem_u s b = omap enc (spec_scalar_rem s (val b)).
+Proof.
+  intros Cb Hs. pose proof B_gt1 as HB. unfold u128_rem_u, spec_scalar_rem.
+  rewrite (scalar_rem_spec to_u128 s b (B * B)); auto.
+  - unfold nz, omap. destruct (Z.eqb_spec (val b) 0); [reflexivity|]. cbn [bind].
+    pose proof (val_nonneg b (proj1 Cb)). pose proof (Z.mod_pos_bound s (val b) ltac:(lia)).
+    assert (s mod val b <= s) by (apply Z.mod_le; lia).
+    rewrite of_u128_enc by lia. reflexivity.
+  - unfold to_u128. destruct b as [|d [|e [|f l]]]; try discriminate; intros v E; inversion E; cbn; lia.
+  - unfold to_u128. destruct b as [|d [|e [|f l]]]; try discriminate.
+    intros _. apply (canon_three_lower d e f l Cb).
+Qed.
